@@ -250,6 +250,9 @@ def plan(tier, seed):
     for i in range(4):
         specs.append({"name": f"call-rand-{i}", "mode": "call-rand", "n": 25 if tier == "quick" else 1500, "rseed": seed * 37 + i})
     specs.append({"name": "deep", "mode": "deep"})
+    for i in range(4):
+        specs.append({"name": f"deep-pairs-{i}", "mode": "deep-pairs", "shard": i, "nshards": 4,
+                      "depths": [30, 60] if tier == "quick" else [20, 35, 50, 65, 80]})
     specs.append({"name": "threads", "mode": "threads", "reps": 3 if tier == "quick" else 40, "rseed": seed})
     specs.append({"name": "alternate", "mode": "alternate", "n": 60 if tier == "quick" else 2000, "rseed": seed})
     return specs
@@ -369,6 +372,71 @@ def run_shard(spec):
                               "detail": {"file": prog[1], "solo": want, "interleaved": g,
                                          "note": "run under the interpreter's default recursion limit"}}])
         res["samples"].append({"mode": "deep", "files": [d[1] for d in deep]})
+    elif mode == "deep-pairs":
+        # two parses that are BOTH deep inside a nest at the same time, under the interpreter's default limits: any
+        # process-wide depth accounting (a counter in a closure, the recursion limit itself) shows up as a result that
+        # differs from the solo run although each parse alone is comfortably within the limits
+        nests = [("int v = ", "(", "a", ")", ";"), ("int v = ", "f(", "1", ")", ";"), ("int v = ", "a[", "0", "]", ";"),
+                 ("void f(void) ", "{", "", "}", ""), ("int x[] = ", "{", "1", "}", ";"), ("int ", "(*", "p", ")", ";"),
+                 ("int v = ", "-(", "1", ")", ";"), ("void f(void) { ", "if (c) { ", ";", " }", " }")]
+        progs = []
+        for ni, (pre, op, mid, cl, post) in enumerate(nests):
+            for d in spec["depths"]:
+                progs.append((pre + op * d + mid + cl * d + post, f"nest{ni}_{d}.c"))
+        root = os.path.dirname(os.path.dirname(os.path.dirname(os.path.abspath(__file__))))
+        env = dict(os.environ, PYTHONHASHSEED="0", PYTHONDONTWRITEBYTECODE="1")
+        code = ("import sys, json\n"
+                "from vf import sut; sut.load()\n"
+                "from vf.checks import c13\n"
+                "t = json.load(sys.stdin)\n"
+                "progs = [tuple(p) for p in t['progs']]\n"
+                "r, s = c13.run_token_schedule(progs, t['sched'])\n"
+                "print(json.dumps([[r.get(i) for i in range(len(progs))], s.stuck, c13.switches(s.trace)]))\n")
+
+        def fresh(progs_, sched):
+            r = subprocess.run([sys.executable, "-c", code], input=json.dumps({"progs": progs_, "sched": sched}), capture_output=True,
+                               text=True, cwd=root, env=env, timeout=600)
+            return json.loads(r.stdout) if r.returncode == 0 and r.stdout.strip() else None
+        pairs = [(a, b) for a in range(len(progs)) for b in range(len(progs)) if a < b and (a * 7 + b) % 5 == 0]
+        pairs += [(a, a) for a in range(len(progs))]
+        pairs = [pr for k, pr in enumerate(sorted(pairs)) if k % spec["nshards"] == spec["shard"]]
+        solo = {}
+        cnt["deep_pairs_skipped_solo_not_ok"] = 0
+        for a, b in pairs:
+            pa = [progs[a][0], progs[a][1]]
+            pb = [progs[b][0], "other_" + progs[b][1]]
+            for q in (pa, pb):
+                if tuple(q) not in solo:
+                    g = fresh([q], [0])
+                    solo[tuple(q)] = g[0][0] if g else None
+            if any(solo[tuple(q)] is None for q in (pa, pb)):
+                res["inconclusive"].append({"why": "deep-pairs helper process failed", "files": [pa[1], pb[1]]})
+                continue
+            if solo[tuple(pa)][0] != "ok" or solo[tuple(pb)][0] != "ok":
+                cnt["deep_pairs_skipped_solo_not_ok"] += 1     # too deep for the default limits already when alone
+                continue
+            na = count_fetches(*pa)
+            # A descends to its innermost token, B runs to completion, A finishes / strict alternation
+            for sch in ([0] * (na // 2 + 1) + [1] * 20000 + [0] * 20000, [0, 1] * 20000):
+                got = fresh([pa, pb], sch)
+                res["evaluations"] += 2
+                cnt["parses"] += 2
+                cnt["schedules"] += 1
+                hs.add(hash((pa[1], pb[1], tuple(sch[:70]))) & ((1 << 56) - 1))
+                if got is None:
+                    res["inconclusive"].append({"why": "deep-pairs helper process failed", "files": [pa[1], pb[1]]})
+                    continue
+                if got[1]:
+                    res["inconclusive"].append({"why": "scheduler wait timed out", "mode": mode})
+                    continue
+                cnt["max_switches"] = max(cnt.get("max_switches", 0), got[2])
+                for q, g in zip((pa, pb), got[0]):
+                    if g != solo[tuple(q)]:
+                        add([{"kind": "result-differs-from-solo-run", "sig": "deep-pairs:" + str(g[0] if g else None),
+                              "case": {"mode": "deep-pairs", "programs": [pa, pb], "schedule": sch[:70]},
+                              "detail": {"file": q[1], "solo": solo[tuple(q)], "interleaved": g,
+                                         "note": "both parses are deep inside a nest at the same time; default recursion limit"}}])
+        res["samples"].append({"mode": "deep-pairs", "pairs": len(pairs), "example": [progs[pairs[0][0]][1], progs[pairs[0][1]][1]] if pairs else None})
     elif mode == "threads":
         solo = solo_fresh(LONG)
         old = sys.getswitchinterval()
@@ -429,10 +497,10 @@ def run_shard(spec):
 
 
 def summarize(results, tier, seed):
-    tot = {"schedules": 0, "steps": 0, "parses": 0, "max_switches": 0}
+    tot = {"schedules": 0, "steps": 0, "parses": 0, "max_switches": 0, "deep_pairs_skipped_solo_not_ok": 0}
     for r in results:
         c = r.get("counters", {})
-        for k in ("schedules", "steps", "parses"):
+        for k in ("schedules", "steps", "parses", "deep_pairs_skipped_solo_not_ok"):
             tot[k] += c.get(k, 0)
         tot["max_switches"] = max(tot["max_switches"], c.get("max_switches", 0))
     return {"monitors": {"schedulers": tot},
